@@ -1001,3 +1001,62 @@ Fixpoint hyp_mismatches_from (i : N) (ks : list (lcase * bool)) : list N :=
   end.
 
 Definition hyp_mismatches (ks : list (lcase * bool)) : list N := hyp_mismatches_from 0 ks.
+
+(* ---------------------------------------------------------------------------------------------- *)
+(* the re-shaped functions against an independent specification: for each legacy function a sample call
+   with atomic operands a1, a2, ... and the Excellent3 expression it means (new function name, argument
+   order, constants, zero-based positions), written from the legacy function reference (Excel semantics)
+   and the documentation of the new functions — not from callMigrators.  Together with [grouping] (every
+   operand stays one subtree wherever the template puts it) this fixes the intended tree of every call. *)
+
+Definition legacy_spec : list (String.string * String.string) := [
+  ("ABS(a1)", "abs(a1)"); ("AND(a1, a2)", "and(a1, a2)"); ("AVERAGE(a1, a2)", "mean(a1, a2)");
+  ("CHAR(a1)", "char(a1)"); ("CLEAN(a1)", "clean(a1)"); ("CODE(a1)", "code(a1)");
+  ("CONCATENATE(a1, a2, a3)", "(a1 & a2) & a3"); ("DATE(a1, a2, a3)", "date_from_parts(a1, a2, a3)");
+  ("DATEDIF(a1, a2, a3)", "datetime_diff(a1, a2, a3)"); ("DATEVALUE(a1)", "date(a1)");
+  ("DAY(a1)", "format_date(a1, ""D"")"); ("DAYS(a1, a2)", "datetime_diff(a2, a1, ""D"")");
+  ("EDATE(a1, a2)", "datetime_add(a1, a2, ""M"")"); ("EPOCH(a1)", "epoch(a1)");
+  ("EXP(a1)", "2.718281828459045 ^ a1"); ("FALSE()", "false");
+  ("FIELD(a1, a2, a3)", "field(a1, a2 - 1, a3)"); ("FIELD(a1, 2, a3)", "field(a1, 1, a3)");
+  ("FIRST_WORD(a1)", "word(a1, 0)");
+  ("FIXED(a1)", "format_number(a1, 2)"); ("FIXED(a1, a2)", "format_number(a1, a2)"); ("FIXED(a1, a2, a3)", "format_number(a1, a2, a3)");
+  ("FORMAT_DATE(a1)", "format_datetime(a1)"); ("FORMAT_LOCATION(a1)", "format_location(a1)");
+  ("HOUR(a1)", "format_datetime(a1, ""tt"")"); ("IF(a1, a2, a3)", "if(a1, a2, a3)"); ("INT(a1)", "round_down(a1)");
+  ("LEFT(a1, a2)", "text_slice(a1, 0, a2)"); ("LEN(a1)", "text_length(a1)"); ("LOWER(a1)", "lower(a1)");
+  ("MAX(a1, a2)", "max(a1, a2)"); ("MIN(a1, a2)", "min(a1, a2)"); ("MINUTE(a1)", "format_datetime(a1, ""m"")");
+  ("MOD(a1, a2)", "mod(a1, a2)"); ("MONTH(a1)", "format_date(a1, ""M"")"); ("NOW()", "now()");
+  ("OR(a1, a2)", "or(a1, a2)"); ("PERCENT(a1)", "percent(a1)"); ("POWER(a1, a2)", "a1 ^ a2");
+  ("PROPER(a1)", "title(a1)"); ("RAND()", "rand()"); ("RANDBETWEEN(a1, a2)", "rand_between(a1, a2)");
+  ("READ_DIGITS(a1)", "read_chars(a1)"); ("REGEX_GROUP(a1, a2, a3)", "regex_match(a1, a2, a3)");
+  ("REMOVE_FIRST_WORD(a1)", "remove_first_word(a1)"); ("REPT(a1, a2)", "repeat(a1, a2)");
+  ("RIGHT(a1, a2)", "text_slice(a1, -a2)"); ("ROUND(a1, a2)", "round(a1, a2)");
+  ("ROUNDDOWN(a1, a2)", "round_down(a1, a2)"); ("ROUNDUP(a1, a2)", "round_up(a1, a2)");
+  ("SECOND(a1)", "format_datetime(a1, ""s"")"); ("SUBSTITUTE(a1, a2, a3)", "replace(a1, a2, a3)");
+  ("SUM(a1, a2, a3)", "(a1 + a2) + a3"); ("TIME(a1, a2, a3)", "time_from_parts(a1, a2, a3)");
+  ("TIMEVALUE(a1)", "time(a1)"); ("TODAY()", "today()"); ("TRUE()", "true"); ("TRUNC(a1)", "round_down(a1)");
+  ("UNICHAR(a1)", "char(a1)"); ("UNICODE(a1)", "code(a1)"); ("UPPER(a1)", "upper(a1)");
+  ("WEEKDAY(a1)", "weekday(a1) + 1");
+  ("WORD(a1, a2)", "word(a1, a2 - 1)"); ("WORD(a1, 3)", "word(a1, 2)");
+  ("WORD(a1, a2, TRUE)", "word(a1, a2 - 1, "" \t"")"); ("WORD(a1, a2, FALSE)", "word(a1, a2 - 1, NULL)");
+  ("WORD_COUNT(a1)", "word_count(a1)"); ("WORD_COUNT(a1, TRUE)", "word_count(a1, "" \t"")");
+  ("WORD_SLICE(a1, a2)", "word_slice(a1, a2 - 1)"); ("WORD_SLICE(a1, a2, a3)", "word_slice(a1, a2 - 1, a3 - 1)");
+  ("WORD_SLICE(a1, 2, 4, TRUE)", "word_slice(a1, 1, 3, "" \t"")");
+  ("YEAR(a1)", "format_date(a1, ""YYYY"")");
+  (* operators *)
+  ("a1 <> a2", "a1 != a2"); ("a1 & a2 & a3", "(a1 & a2) & a3"); ("a1 * a2 / a3", "(a1 * a2) / a3");
+  ("a1 ^ a2 ^ a3", "(a1 ^ a2) ^ a3"); ("-a1 ^ a2", "(-a1) ^ a2"); ("a1 + a2", "legacy_add(a1, a2)");
+  ("a1 - a2", "legacy_add(a1, -a2)"); ("1 - 2", "1 - 2"); ("a1 <= a2 = a3", "(a1 <= a2) = a3")
+]%string.
+
+Definition spec_ok (p : String.string * String.string) : bool :=
+  match parse1 (s2t (fst p)), parse3 (s2t (snd p)) with
+  | Some e, Some ti =>
+      match parse3 (visit lower false e) with
+      | Some t => e3_eqb (erase3 t) (erase3 ti)
+      | None => false
+      end
+  | _, _ => false
+  end.
+
+Lemma table_meets_spec : forallb spec_ok legacy_spec = true.
+Proof. vm_compute. reflexivity. Qed.
